@@ -304,13 +304,6 @@ def format_contract(clauses, twin, indent="    "):
             groups[c.kind] = []
             order.append(c.kind)
         groups[c.kind].append(c)
-    if twin:
-        if "ensures" not in groups:
-            groups["ensures"] = []
-            # ensures must come after requires/recommends and before decreases
-            pos = len([k for k in order if k in ("requires", "recommends")])
-            order.insert(pos, "ensures")
-        groups["ensures"].append(Clause("ensures", ["VACUITY"], "false", "twin"))
     canonical = ["requires", "recommends", "invariant_except_break", "invariant", "ensures", "loop_ensures",
                  "decreases", "when", "via", "no_unwind", "opens_invariants"]
     out = []
@@ -446,9 +439,15 @@ def build_item(u, spec, twin, gen):
                 ed.add(f.ret_e, f.ret_e, ")", "S-ret", prio=1)
             else:
                 ed.add(f.params_close, f.params_close, f" -> ({fs.returns}: ())", "S-ret")
-        if clauses or do_twin:
-            ctext = "\n" + format_contract(clauses, do_twin, "        ") + "\n    "
+        if clauses:
+            ctext = "\n" + format_contract(clauses, False, "        ") + "\n    "
             ed.add(f.sig_end, f.sig_end, ctext, "S-contract", prio=2)
+        if do_twin:
+            # must-fail twin: the function's assumptions (requires, trait-level requires, type
+            # invariants, broadcast axioms) must not be contradictory. The assertion sits at the
+            # start of the body so that it is NOT exported to callers (an `ensures false` would make
+            # every caller verify vacuously).
+            ed.add(f.body_s + 1, f.body_s + 1, " proof { assert(false); } /*@vacuity*/ ", "S-twin", prio=-9)
         if fs and f.has_body and not is_assumed:
             lo, hi = f.tok_range
             # token indices of the body
